@@ -78,9 +78,10 @@ func (s *session) delay(ev string, party int) time.Duration {
 	if !ok {
 		return 0
 	}
-	// the point between `need[k]--` and the store of the accepted connection
-	// is perturbed in profile midaccept only; all other profiles delay only
-	// before dial / accept / hello / info (the property's quantifier).
+	// the point inside acceptConn (between the check of need[k] and the store
+	// of the accepted connection) is perturbed in profile midaccept only; all
+	// other profiles delay only before dial / accept / hello / info (the
+	// property's quantifier).
 	if ev == "accepted" && s.cs.Profile != "midaccept" {
 		return 0
 	}
@@ -139,7 +140,9 @@ func (s *session) add(tok string) {
 
 // hook is installed as the p2p verif hook.  Events that the code raises
 // while holding Network.m (lconnect, accdec, waitdone, gotinfo) are only
-// logged; the other points may also sleep.
+// logged; the other points may also sleep.  "accepted" is raised after the
+// check of need[k] and before the store, "accdec" at need[k]-- after the
+// store; "accstore" (after acceptConn returned) carries no information.
 func (s *session) hook(ev string, a ...int) {
 	s.last.Store(time.Now().UnixNano())
 	arg := func(i int) int {
@@ -155,10 +158,10 @@ func (s *session) hook(ev string, a ...int) {
 		s.add("L")
 	case "hello":
 		s.add(fmt.Sprintf("h.%d", arg(0)))
+	case "accepted":
+		s.add(fmt.Sprintf("t.%d.%d.%d", arg(0), arg(1), arg(2)))
 	case "accdec":
 		s.add(fmt.Sprintf("a.%d.%d.%d", arg(0), arg(1), arg(2)))
-	case "accstore":
-		s.add(fmt.Sprintf("s.%d", arg(0)))
 	case "waitdone":
 		s.add(fmt.Sprintf("w.%d.%d.%d", arg(0), arg(1), arg(2)))
 	case "info":
@@ -192,30 +195,6 @@ func addr(port int) string { return fmt.Sprintf("127.0.0.1:%d", port) }
 
 func inUse(err error) bool {
 	return err != nil && (errors.Is(err, syscall.EADDRINUSE) || strings.Contains(err.Error(), "address already in use"))
-}
-
-// signalBeforeStore reports whether the trace contains a waitdone(p,k)
-// raised while p's accept goroutine was between `need[k]--` and the store of
-// the accepted connection (accdec(p,_,k) without its accstore(p) yet).
-func signalBeforeStore(tr []string) (bool, string) {
-	infl := map[int]int{}
-	for _, t := range tr {
-		var p, i, k, nd int
-		switch t[0] {
-		case 'a':
-			fmt.Sscanf(t, "a.%d.%d.%d", &p, &i, &k)
-			infl[p] = k + 1
-		case 's':
-			fmt.Sscanf(t, "s.%d", &p)
-			infl[p] = 0
-		case 'w':
-			fmt.Sscanf(t, "w.%d.%d.%d", &p, &k, &nd)
-			if infl[p] == k+1 && nd == 0 {
-				return true, t
-			}
-		}
-	}
-	return false, ""
 }
 
 type tableSnap struct {
@@ -453,18 +432,18 @@ func runOnce(cs caseSpec, port int) (*caseResult, bool) {
 	}
 	res.Counters["delays_injected"] = int(s.nDelays.Load())
 
-	// let in-flight accept goroutines finish their store (bounded)
+	// let accept goroutines that are inside acceptConn finish (bounded)
 	settle := time.Now().Add(1500 * time.Millisecond)
 	for time.Now().Before(settle) {
-		na, ns := 0, 0
+		nt, na := 0, 0
 		for _, t := range s.trace() {
-			if t[0] == 'a' {
+			if t[0] == 't' {
+				nt++
+			} else if t[0] == 'a' {
 				na++
-			} else if t[0] == 's' {
-				ns++
 			}
 		}
-		if na == ns {
+		if nt == na {
 			break
 		}
 		time.Sleep(5 * time.Millisecond)
@@ -475,27 +454,6 @@ func runOnce(cs caseSpec, port int) (*caseResult, bool) {
 		res.Trace = "-"
 	}
 	res.Counters["events"] = len(tr)
-	race, raceAt := signalBeforeStore(tr)
-	if race {
-		res.Counters["trace_signal_before_store"] = 1
-		res.Sbs = 1
-	}
-	// a failure of a session whose trace shows a wait loop ending between
-	// need[k]-- and the store of the accepted connection is attributed to that
-	// (known) defect of acceptConn; every other failure keeps its own signature.
-	classify := func(sig string) string {
-		if race {
-			return "c19-signal-before-store"
-		}
-		return sig
-	}
-	cause := func() string {
-		if race {
-			return "waitdone-while-accept-in-flight"
-		}
-		return "-"
-	}
-
 	res.End = "final"
 	var errs []string
 	for id := 0; id < n; id++ {
@@ -512,8 +470,7 @@ func runOnce(cs caseSpec, port int) (*caseResult, bool) {
 		}
 	}
 	if len(errs) > 0 {
-		fail(classify("c19-connect-error"), map[string]any{"kind": "connect-error", "errors": errs, "pattern_at": raceAt,
-			"cause": cause()})
+		fail("c19-connect-error", map[string]any{"kind": "connect-error", "errors": errs})
 	}
 	if hang != "" {
 		var stuck []int
@@ -525,8 +482,7 @@ func runOnce(cs caseSpec, port int) (*caseResult, bool) {
 		if res.End == "final" {
 			res.End = "deadlock"
 		}
-		fail(classify("c19-hang"), map[string]any{"kind": "hang", "why": hang, "not_returned": stuck, "pattern_at": raceAt,
-			"cause": cause()})
+		fail("c19-hang", map[string]any{"kind": "hang", "why": hang, "not_returned": stuck})
 		return res, false
 	}
 	if res.End != "final" {
@@ -536,8 +492,7 @@ func runOnce(cs caseSpec, port int) (*caseResult, bool) {
 	// oracle 1: the table each party sees when its Connect returns
 	for id := 0; id < n; id++ {
 		if ok, why := returned[id].at.complete(id, n, m); !ok {
-			fail(classify("c19-incomplete-at-return"), map[string]any{"kind": "incomplete-at-return", "party": id,
-				"why": why, "pattern_at": raceAt, "cause": cause()})
+			fail("c19-incomplete-at-return", map[string]any{"kind": "incomplete-at-return", "party": id, "why": why})
 			break
 		}
 	}
